@@ -14,11 +14,12 @@ class Target:
     """A test problem: affine prior transform on [lo, hi]^d and a likelihood in scalar / vectorised /
     blob-returning form that are pointwise identical (same floating-point operations per point)."""
 
-    def __init__(self, n_dim, kind="gauss", lo=-5.0, hi=5.0, shift=0.0, support=None, quant=None, slow=None):
+    def __init__(self, n_dim, kind="gauss", lo=-5.0, hi=5.0, shift=0.0, support=None, quant=None, slow=None, nan_pocket=None):
         self.n_dim = n_dim
         self.kind = kind
         self.lo, self.hi = lo, hi
         self.shift = shift
+        self.nan_pocket = nan_pocket  # None, or radius of a small ball around the mode where the likelihood returns NaN
         self.slow = slow  # None, or seconds to sleep for points with x[0] > 0 (evaluation time varies across a batch)
         self.quant = quant  # None, or q: log-likelihood values rounded to multiples of 2^-q (dyadic: adding a dyadic shift is exact)
         self.support = support  # None or fraction f: likelihood is zero unless u_0 < f  (x_0 < lo + f (hi-lo))
@@ -31,6 +32,9 @@ class Target:
         elif kind == "narrow":  # two well separated narrow modes (sigma = 1% of the cube): the hierarchical clusterer does split
             self.mu = np.full(n_dim, 2.5)
             self.sig = np.full(n_dim, 0.1)
+        elif kind == "tophat":  # plateau likelihood: every supported point has the same (finite) value
+            self.mu = np.zeros(n_dim)
+            self.sig = np.ones(n_dim)
         elif kind == "edge":  # posterior mass abuts the lower prior boundary
             self.mu = np.full(n_dim, lo)
             self.sig = np.full(n_dim, 1.0)
@@ -49,6 +53,10 @@ class Target:
         if self.support is not None and not (x[0] < self.lo + self.support * (self.hi - self.lo)):
             return -np.inf
         s = 0.0
+        if self.kind == "tophat":
+            return float(0.0 + self.shift) if all(abs(x[j]) < 3.0 for j in range(self.n_dim)) else -np.inf
+        if getattr(self, "nan_pocket", None) and sum((x[j] - self.mu[j]) ** 2 for j in range(self.n_dim)) < self.nan_pocket ** 2:
+            return float("nan")
         if self.kind in ("bimodal", "narrow"):
             a = 0.0
             b = 0.0
@@ -106,7 +114,7 @@ class PermutingPool:
 DEFAULTS = dict(n_dim=2, n_particles=8, ess_ratio=2.0, volume_variation=None, evaluation="scalar", periodic=None,
                 reflective=None, pool=None, clustering=True, normalize=True, cluster_every=1, split_threshold=1.0,
                 n_max_clusters=None, sample="tpcn", n_steps=None, n_max_steps=None, resample="mult",
-                random_state=None, target="gauss", support=None, shift=0.0, quant=None, slow=None)
+                random_state=None, target="gauss", support=None, shift=0.0, quant=None, slow=None, nan_pocket=None)
 
 
 def build_sampler(conf: dict, rec: psrun.Recorder | None, out_dir=None):
@@ -114,7 +122,7 @@ def build_sampler(conf: dict, rec: psrun.Recorder | None, out_dir=None):
 
     c = dict(DEFAULTS)
     c.update(conf)
-    tgt = Target(c["n_dim"], c["target"], shift=c["shift"], support=c["support"], quant=c["quant"], slow=c["slow"])
+    tgt = Target(c["n_dim"], c["target"], shift=c["shift"], support=c["support"], quant=c["quant"], slow=c["slow"], nan_pocket=c["nan_pocket"])
     ev = c["evaluation"]
     if ev == "blobs_nodtype":   # the likelihood returns (logl, blob) but blobs_dtype is not configured
         ll, vec, bd = tgt.logl_blob, False, None
